@@ -3,11 +3,16 @@ package c13
 
 import (
 	"fmt"
+	"io"
 	"sort"
 	"strings"
 
 	"go.pennock.tech/tabular"
 	"go.pennock.tech/tabular/csv"
+	"go.pennock.tech/tabular/html"
+	"go.pennock.tech/tabular/json"
+	"go.pennock.tech/tabular/markdown"
+	"go.pennock.tech/tabular/texttable"
 
 	"verif/harness/internal/ev"
 	"verif/harness/internal/gen"
@@ -443,9 +448,19 @@ func CheckCase(c Case) *ev.Violation {
 			w.m.Step(t, *st.Op)
 		case "render":
 			w.predictRender(&pred)
-			if st.Via == "csv" {
+			// whichever renderer draws the table, it is one render pass
+			switch st.Via {
+			case "csv":
 				csv.Render(t)
-			} else {
+			case "html":
+				html.Wrap(t).RenderTo(io.Discard)
+			case "json":
+				json.Wrap(t).RenderTo(io.Discard) // may refuse the table (no headers ...): the pass has happened by then
+			case "markdown":
+				markdown.Wrap(t).RenderTo(io.Discard)
+			case "texttable":
+				texttable.Wrap(t).RenderTo(io.Discard)
+			default:
 				t.InvokeRenderCallbacks()
 			}
 		case "seedcell":
